@@ -364,6 +364,27 @@ def r_cells(model, rep):
     empties = [e for e in emits if e.kind == "store" and len(e.path) == 4 and e.path[:2] == [("const", "payload"), ("const", "images")]
                and len(e.loops) < 3 and not any(T.contains(g[0], lambda x: x[0] == "sub" and T.contains(x, lambda y: y == ("attr", S, "images")))
                                                 for g in e.ev.guards)]
+    # (the same creation spelled d.setdefault(variant, {}).setdefault(arch, []) outside the image loop)
+    def sd_depth(t):
+        """number of keys below payload/images a chain of [k] / .setdefault(k, ...) creates or reaches"""
+        if t[0] == "call" and t[1][0] == "attr" and t[1][2] == "setdefault" and len(t[2]) >= 1:
+            d = sd_depth(t[1][1])
+            return None if d is None else d + 1
+        if t[0] == "sub":
+            if t == ("sub", ("sub", t[1][1], ("const", "payload")), ("const", "images")) and t[1][0] == "sub" and t[1][1][0] == "param":
+                return 0
+            d = sd_depth(t[1])
+            return None if d is None else d + 1
+        return None
+    class _E(object):
+        pass
+    for ev in cx.events:
+        if ev.kind == "call" and len(ev.loops) < 3 and ev.value[0] == "call" and ev.value[1][0] == "attr" and ev.value[1][2] == "setdefault" \
+                and sd_depth(ev.value) == 2 and not any(
+                    T.contains(g[0], lambda x: x[0] == "sub" and T.contains(x, lambda y: y == ("attr", S, "images"))) for g in ev.guards):
+            e_ = _E()
+            e_.ev = ev
+            empties.append(e_)
     rep.ob("R-CELLS", "Images.serialize:no-empty-cells", not empties, site=cx.site(empties[0].ev.lineno if empties else f.node),
            msg="" if not empties else "payload/images/<variant>/<arch> is created once per cell, images or not: an empty cell is written "
                                       "as [] but not re-created on load")
@@ -1495,7 +1516,9 @@ def check_c05(model, rep, tier):
     r_fix_path_identity(model, rep, relative_clause=True)
     r_upgrade_reloadable(model, rep)
     from .sources import r_src_route
-    from .regexes import r_legacy_compose
+    from .regexes import r_legacy_compose, r_suffix_tables, r_cid_decode
+    # documents older than 0.3 carry date, type and respin only inside the compose id: the legacy reader is as faithful as the decoder
+    r_cid_decode(model, rep, r_suffix_tables(model, rep), tier)
     r_src_route(model, rep)
     r_legacy_compose(model, rep)
     r_convert_once(model, rep)
